@@ -1085,6 +1085,8 @@ type responseWriter struct {
 	// has WriteHeader or first call to Write occurred?
 	headersWritten bool
 	contentLen     int
+	// number of body bytes the handler has written
+	written int
 	// have headers actually been flushed to delegate?
 	headersFlushed bool
 	// have we already written the end of the stream (error/trailers/etc)?
@@ -1119,7 +1121,9 @@ func (w *responseWriter) Write(data []byte) (n int, err error) {
 	if w.err != nil {
 		return 0, w.err
 	}
-	return w.w.Write(data)
+	n, err = w.w.Write(data)
+	w.written += n
+	return n, err
 }
 
 func (w *responseWriter) WriteHeader(statusCode int) {
@@ -1370,6 +1374,12 @@ func (w *responseWriter) close() {
 	}
 	if w.endWritten {
 		return // all done
+	}
+	if w.contentLen >= 0 && w.written != w.contentLen && w.op.request.Method != http.MethodHead {
+		// net/http would abort such a response; since the declared length is
+		// replaced during transformation, it has to be checked here.
+		w.reportError(fmt.Errorf("handler declared content-length %d but wrote %d bytes", w.contentLen, w.written))
+		return
 	}
 	if w.respMeta.end != nil {
 		// got end in headers
